@@ -441,7 +441,8 @@ func c01BodyDefaults(r *lp.Run, drv *gc.Driver, x *exSpec) {
 	}
 }
 
-// ---- parameters that share a name across locations, several parameters per operation ----
+// ---- parameters that share a name across locations, several parameters per operation, path parameters declared in
+// another order than they have in the path (also split between the path item and the operation) ----
 
 const sameNameDoc = `{"openapi":"3.0.3","info":{"title":"t","version":"1"},"paths":{
  "/sn/{id}":{"get":{"operationId":"sameName","parameters":[
@@ -458,7 +459,15 @@ const sameNameDoc = `{"openapi":"3.0.3","info":{"title":"t","version":"1"},"path
    {"name":"a","in":"cookie","schema":{"type":"integer"}}],
    "responses":{"200":{"description":"ok"}}}},
  "/sn3/{x}":{"parameters":[{"name":"x","in":"header","required":true,"schema":{"type":"string"}},{"name":"x","in":"path","required":true,"schema":{"type":"string"}}],
-   "get":{"operationId":"sameName3","parameters":[{"name":"x","in":"query","required":true,"schema":{"type":"string"}}],"responses":{"200":{"description":"ok"}}}}
+   "get":{"operationId":"sameName3","parameters":[{"name":"x","in":"query","required":true,"schema":{"type":"string"}}],"responses":{"200":{"description":"ok"}}}},
+ "/po/{org}/{repo}/labels/{label}":{"get":{"operationId":"pathOrder","parameters":[
+   {"name":"label","in":"path","required":true,"schema":{"type":"string"}},
+   {"name":"org","in":"path","required":true,"schema":{"type":"string"}},
+   {"name":"repo","in":"path","required":true,"schema":{"type":"string"}}],
+   "responses":{"200":{"description":"ok"}}}},
+ "/po2/{a}/{b}":{"parameters":[{"name":"a","in":"path","required":true,"schema":{"type":"string"}}],
+   "get":{"operationId":"pathOrder2","parameters":[{"name":"b","in":"path","required":true,"schema":{"type":"string"}}],"responses":{"200":{"description":"ok"}}},
+   "delete":{"operationId":"pathOrder3","parameters":[{"name":"q","in":"query","schema":{"type":"string"}},{"name":"b","in":"path","required":true,"schema":{"type":"string"}}],"responses":{"200":{"description":"ok"}}}}
 }}`
 
 func c01SameNames(r *lp.Run, drv *gc.Driver, pkg *gc.Pkg) {
